@@ -570,7 +570,11 @@ func ToEntry(n Node) (e *Entry) {
 	if e := ms.getEntryCache(n); e != nil {
 		return e
 	}
+	if !ms.beginEntry(n) {
+		return newError(n, "circular reference to %s %s", n.Kind(), n.NName())
+	}
 	defer func() {
+		ms.endEntry(n)
 		ms.setEntryCache(n, e)
 	}()
 
